@@ -61,4 +61,24 @@ TEXT = {
         "level_text": "Exploration: generated segments (built, loaded, merged) and lists of 0-12 (field, term) pairs mixing present, absent, unknown-field, empty-field-name, repeated, deleted-away and 1-hit terms in arbitrary order; the result must equal the union computed from the model, without error or panic.",
         "level_note": "Trusts the model and roaring set equality.",
     },
+    "C07": {
+        "technique": "model-based property testing (rapid): one doc-value reader driven through generated visiting histories vs. per-document model",
+        "level_text": "Exploration: generated segments (small family and 1025-3100-document family spanning several 1024-document doc-value chunks; built, loaded, merged) are read with one DocumentValueReader over a drawn field list (permutations, duplicates, unknown and non-doc-value fields) following a drawn history (forwards, backwards, ping-pong across chunk boundaries, repeats); every visit must deliver exactly the model's sorted distinct terms per requested doc-value field in request order.",
+        "level_note": "Trusts the model ('a field has doc values in a segment iff any instance of the batch asked for them; merges preserve them per source segment').",
+    },
+    "C12": {
+        "technique": "fault injection enumerated exhaustively inside generated cases: failing writer at every byte offset, close channel at every byte",
+        "level_text": "Fault enumeration: for each generated persist/merge workload (several buffer sizes) every byte offset at which the destination writer starts failing is injected into Segment.WriteTo and Merger.WriteTo (must return a non-nil error), and the close channel is closed at every byte of the output (result must be ErrClosed or nil together with the complete, byte-identical file and the right byte count). About 10^5 injected faults per quick run.",
+        "level_note": "Offsets are exhaustive for files <= 8 KiB (2 KiB in the block family), boundary neighbourhoods + stride beyond; a dropped error in the middle of a merge that bufio's sticky error re-reports at Flush is not a violation and is not claimed.",
+    },
+    "C14": {
+        "technique": "stateful metamorphic testing (rapid): rebuild a fixed target after generated histories of other builds, failed builds, GCs and concurrent builders; byte identity",
+        "level_text": "Exploration: a target batch is built cold, then after each of up to 12 drawn actions (builds of other shapes and sizes, a failing build, two forced GCs, 2-8 concurrent builders) it is rebuilt and its persisted bytes must be identical to the first build. The verif hook samples whether the rebuild started from a recycled builder object. The thorough tier repeats the concurrent part under the race detector.",
+        "level_note": "Go's map iteration order varies by itself between builds; pool reuse and goroutine schedules are sampled, not controlled.",
+    },
+    "C15": {
+        "technique": "stateful property testing (rapid): snapshot/re-observe invariant over histories of reads, persists and merges; bitmap set and representation equality",
+        "level_text": "Exploration: for 2-3 generated segments and caller-owned bitmaps (array containers of consecutive values, so an in-place RunOptimize is visible), after every action of a drawn history (exclusion walks, DocsMatchingTerms, visits, WriteTo, hooked and public merges with the bitmaps as drops) every segment's full observation and persisted bytes and every bitmap's members and serialised bytes must equal the snapshot taken before.",
+        "level_note": "Trusts the observation walker and roaring serialisation as the representation witness.",
+    },
 }
